@@ -51,7 +51,7 @@ PUNCT_TAIL = [",", ".", "?", "!", ";", ":", ")", "...", "?!"]
 SYMBOL_WORDS = ["#", "@", "%", "&", "=", "?", "*", "~", "<", ">", "|", "\\", "`", "{", "}", "_", "^", "$", "-", "--", "=>", "<=", "(", ")", "!", ";", ",", "/"]
 # first body words of notes WITHOUT ZID that are, by the format's definition, ordinary words, but that
 # look date-ish to one helper or another (relative date specs, near-dates, bare P)
-HOSTILE_FIRST = ["3D", "10m", "2d", "1y", "0d", "12M", "7D", "2024-1-1", "20240101", "2024-01", "P", "Px", "1015", "0", "d", "-1d", "10min", "5x"]
+HOSTILE_FIRST = ["2023-02-29", "2024-04-31", "1999-12-31", "2024-13-01", "230229", "P1", "P7", "3D", "10m", "2d", "1y", "0d", "12M", "7D", "2024-1-1", "20240101", "2024-01", "P", "Px", "1015", "0", "d", "-1d", "10min", "5x"]
 COLLISION_WORDS = ["o", "x", "P5", "P0", "P9", "2024-01-01", "2031-12-31", "1015", "0000", "2359", "240101#AB", "991231#zz", "240101#0a1", "240101", "000101"]
 URLS = ["https://example.com", "https://foo.com/bar/baz", "http://a.b.org/p-1", "https://www.foobar.com/q?k=v", "https://site.io/a/b#frag"]
 
@@ -577,7 +577,7 @@ class PageGen:
         if bare_head and rng.random() < 0.15:
             it.words[0] = W(rng.choice(HOSTILE_FIRST), form="hostile_first")
         if kind != "-" and it.priority is None and bare_head and _looks_priority(it.words[0].text):
-            it.words[0] = w_plain(rng)
+            it.words[0] = w_plain(rng)  # (for a todo without priority a leading Pn IS its priority)
         if o.irregular_gap and rng.random() < 0.3:
             it.gap = rng.choice(["  ", "   "])
         if rng.random() < 0.05:
